@@ -1,11 +1,12 @@
 (* Props/C01.v - No command is served on a connection that has not authenticated.
-   Proved here (partial, see DESIGN.md): a refusal at any point of the initial exchange finishes the connection
-   for good - whatever the client sends afterwards nothing is called and nothing is written; a refused or
-   aborted COM_CHANGE_USER leads to session.close and the end of the connection; the session is initialised
-   only after a Success verdict.  The general statement over arbitrary histories of COM_CHANGE_USER is carried
-   by the lock-step runs against Model/Conn.v. *)
+   Proved here, for EVERY event list (Proofs/C01Proofs.v, plan-aware invariants): on a fresh connection, as long as
+   no verdict of the exchange is Success, the session receives nothing but the user lookup and the client nothing
+   but greeting / auth requests / ERR (c01_nothing_before_success); from any state waiting for a command, a
+   COM_CHANGE_USER whose exchange contains no Success verdict is never followed by a served call again
+   (c01_change_user_without_success).  Also: a refusal finishes the connection for good, for every continuation
+   (finite families of refusal prefixes, c01_refusal_is_final / c01_change_user_refusal_is_final). *)
 From Coq Require Import List Arith NArith Lia Bool.
-From MM Require Import Lib.Bytes Model.Conn Proofs.ConnInv Proofs.C10Proofs Proofs.KillProofs Gen.FactsConn.
+From MM Require Import Lib.Bytes Model.Conn Proofs.ConnInv Proofs.C10Proofs Proofs.KillProofs Proofs.C01Proofs Gen.FactsConn.
 Import ListNotations.
 Open Scope N_scope.
 
@@ -108,3 +109,34 @@ Proof.
   - apply session_app_done. pose proof cu_done as D. rewrite Forall_forall in D. exact (D d Hin).
   - pose proof cu_computed as R. rewrite forallb_forall in R. exact (R d Hin).
 Qed.
+
+(* ---- the general statements: every event list --------------------------------------------------------------------- *)
+(* a fresh connection: as long as no verdict of the exchange is Success - whatever else happens: any number of
+   auth-switch / more-data round trips, refusals, failures, truncated or mis-sequenced replies, disconnects, socket
+   failures, kills, payloads sent early - the session receives nothing but the user lookup (in particular it is never
+   initialised) and the client nothing but the greeting, auth requests and ERR packets *)
+Theorem c01_nothing_before_success : forall hs evs, Forall no_success evs -> Forall Opre (snd (session B BATCH hs evs)).
+Proof. exact (preauth_silent B BATCH). Qed.
+
+(* from ANY state in which the connection waits for the next command: a COM_CHANGE_USER followed by ANY events without a
+   Success verdict is never followed by a served call (init / query / use / reset) again *)
+Theorem c01_change_user_without_success : forall s evs,
+  ctl_ s = Susp WRead [] FRead None -> phase s = Command -> inq s = [] -> kill s <> Some KQ -> Forall no_success evs ->
+  Forall Osess (snd (exec B BATCH s (EvPayload CChangeUser :: evs))).
+Proof. exact (change_user_without_success_serves_nothing B BATCH). Qed.
+
+(* ... also when the COM_CHANGE_USER had queued up behind another command and is dispatched by the command loop *)
+Theorem c01_queued_change_user_without_success : forall s q evs,
+  inq s = CChangeUser :: q -> kill s <> Some KQ -> Forall no_success evs ->
+  let '(s1, o1) := go B BATCH s [] FRead in Forall Osess (o1 ++ snd (exec B BATCH s1 evs)).
+Proof. exact (queued_change_user_without_success_serves_nothing B BATCH). Qed.
+
+(* non-vacuity: the state after a successful login meets the hypotheses, and a refused re-authentication followed by a
+   query really runs: user lookup, ERR, session.close - and no query *)
+Example c01_general_nonvacuous :
+  let s := fst (session B BATCH 60 [EvHandshake true true; EvDecide ASuccess; EvApp OVoid]) in
+  ctl_ s = Susp WRead [] FRead None /\ phase s = Command /\ inq s = [] /\ kill s = None /\
+  filter (fun o => match o with OSess _ => true | _ => false end)
+         (snd (exec B BATCH s [EvPayload CChangeUser; EvDecide ASwitch; EvAuthReply AForbidden; EvApp OVoid; EvPayload CQuery]))
+  = [OSess SGetUser; OSess SClose].
+Proof. vm_compute. repeat split; reflexivity. Qed.
